@@ -398,7 +398,7 @@ impl Check for C19 {
         // ---- write phase
         let wtxt: Vec<String> = wops.iter().map(wop_text).collect();
         let qw = format!("c19_write('{file}', {ty}, [{}]).", wtxt.join(","));
-        hash_bytes(&mut h, qw.as_bytes());
+        hash_bytes(&mut h, qw.replace(&file, "F").as_bytes());
         let _ = std::fs::remove_file(&file);
         let rw = m.all(&qw);
         if let Some(p) = &rw.panic {
@@ -448,7 +448,7 @@ impl Check for C19 {
         // ---- read phase, twice
         let rtxt: Vec<String> = rops.iter().map(rop_text).collect();
         let qr = format!("c19_read('{file}', [type({ty}), eof_action({eof_action}), reposition(true)], [{}], Rs).", rtxt.join(","));
-        hash_bytes(&mut h, qr.as_bytes());
+        hash_bytes(&mut h, qr.replace(&file, "F").as_bytes());
         let mut results: Vec<Vec<String>> = vec![];
         for short in [false, true] {
             if short {
